@@ -25,10 +25,11 @@ func runC01(p *Prog, r *Report) {
 	r.Explain = append(r.Explain, "R-SYNC: every function that stores Buffer.Info re-sizes Buffer.Pos on every path through that store (directly or through a callee that does so on all its paths) or is confined to output mode; swapBuffers/clearPositions take the new Pos length from len(Info); every clearOutput() is closed by swapBuffers() on all paths.")
 	ruleSync(p, r, syncCfg{pkg: "harfbuzz", typ: "Buffer", info: "Info", pos: "Pos", haveOutput: "haveOutput",
 		clearOutput: "clearOutput", swap: "swapBuffers", resync: []string{"swapBuffers", "clearPositions"}, floorWriters: 7, floorBrackets: 9})
-	r.Explain = append(r.Explain, "R-BUDGET: in shaperOpentype.shape the stores of Buffer.maxOps and Buffer.maxLen, with values computed from len(Info), precede on every path each call that can reach a reader of these fields; in otMap.apply the call of applyString is unreachable from the exhausted edge of the maxLen test, and every path from one applyString call to the next passes that test again (the only bound on the growth caused by multiple substitutions).")
+	r.Explain = append(r.Explain, "R-BUDGET: in shaperOpentype.shape the stores of Buffer.maxOps and Buffer.maxLen, with values computed from len(Info), precede on every path each call that can reach a reader of these fields.")
 	ruleBudget(p, r, budgetCfg{pkg: "harfbuzz", typ: "Buffer", info: "Info", budgets: []string{"maxOps", "maxLen"},
-		entryPkg: "harfbuzz", entryRecv: "shaperOpentype", entry: "shape",
-		loopRecv: "otMap", loopFn: "apply", loopCallee: "applyString", loopCalleeRecv: "otApplyContext", loopBudget: "maxLen"})
+		entryPkg: "harfbuzz", entryRecv: "shaperOpentype", entry: "shape"})
+	r.Explain = append(r.Explain, "R-BUDGET/grow: the sites that make the buffer longer by an amount the font chooses — a loop emitting one glyph per element of a slice it is given (outputGlyphIndex), a replaceGlyphs whose glyph list is not a literal, an append of a make() of computed length to Buffer.Info — are each bounded by Buffer.maxLen: a comparison depending on it precedes the site on every path (for the loop: the function compares the length of the ranged slice with it).")
+	ruleBudgetGrow(p, r, "harfbuzz", "Buffer", "Info", "maxLen", "outputGlyphIndex", "replaceGlyphs", 3)
 	r.Explain = append(r.Explain, "R-DIV: every integer division or remainder in the shaping engine whose divisor is not a non-zero constant has a provably non-zero divisor (dominating test, switch cases, non-zero field/result/argument everywhere, 1<<n) or a reviewed reason: a zero divisor is a run-time panic.")
 	ruleDiv(p, r, []string{"harfbuzz", "shaping", "segmenter", "font"}, reviewedDivs(), 8)
 	r.Explain = append(r.Explain, "R-IDX (regression rule over slice accesses in the hand-written code of package harfbuzz): each access key (function / indexed field) of the frozen set sa/ridx_tables.go — the accesses whose bounds P-LIN derived from the function's own dominating tests on the pinned tree, among them the tests added by the fixes for font-supplied lookup, mark-set and feature indices — is still derivable.")
@@ -131,42 +132,189 @@ func ruleBudget(p *Prog, r *Report, c budgetCfg) {
 		}
 		r.Floor(rule+"("+bn+")", n, 1)
 	}
-	// loop test
-	loop := p.Func(c.pkg, c.loopRecv, c.loopFn)
-	callee := p.Func(c.pkg, c.loopCalleeRecv, c.loopCallee)
-	fb := p.Field(c.pkg, c.typ, c.loopBudget)
-	gs := counterGuards(loop, func(v ssa.Value) bool { return isLoadOfField(v, fb) }, true)
-	n := 0
-	for _, b := range loop.Blocks {
-		for _, in := range b.Instrs {
-			if !staticCallTo(in, callee) {
-				continue
-			}
-			n++
-			key := fmt.Sprintf("%s/%s-guards-%s", p.FnName(loop), c.loopBudget, c.loopCallee)
-			r.Instance(rule, key)
-			r.Check(guardedByAny(p, loop, in, gs), rule, key, p.IPos(in), fmt.Sprintf("the call of %s is unreachable from the exhausted edge of the %s test", c.loopCallee, c.loopBudget))
-			// the budget is tested again before every further application: no path from this call to a call of the callee
-			// (the same one in the next iteration, or another one) avoids every test of the budget
-			key2 := fmt.Sprintf("%s/%s-retested-before-next-%s", p.FnName(loop), c.loopBudget, c.loopCallee)
-			r.Instance(rule, key2)
-			isGuard := func(x ssa.Instruction) bool {
-				for _, g := range gs {
-					if x == ssa.Instruction(g.iff) {
-						return true
-					}
+}
+
+// ruleBudgetGrow — R-BUDGET/grow: the only things that make the buffer longer by an amount the font chooses are (a) a loop
+// that emits one glyph per element of a slice it is given (outFn: outputGlyphIndex), (b) a call of replaceFn
+// (replaceGlyphs) whose glyph list is not a literal, and (c) an append to the glyph array of a make() of non-constant
+// length. Each of them is bounded by the limit on the buffer length: (b), (c): an If whose condition depends on a load of
+// the limit precedes the site on every path; (a): the function contains a comparison that depends both on the limit and on
+// the length of the slice that is ranged over (the cap may be a re-slice rather than a branch around the loop).
+func ruleBudgetGrow(p *Prog, r *Report, pkg, typ, info, limit, outFn, replaceFn string, floor int) {
+	const rule = "R-BUDGET/grow"
+	fLimit := p.Field(pkg, typ, limit)
+	fInfo := p.Field(pkg, typ, info)
+	out := p.TryFunc(pkg, typ, outFn)
+	repl := p.TryFunc(pkg, typ, replaceFn)
+	onLimit := func(v ssa.Value) bool {
+		return derivesFrom(v, func(x ssa.Value) bool { return isLoadOfField(x, fLimit) }, 0)
+	}
+	isLimitIf := func(in ssa.Instruction) bool {
+		iff, ok := in.(*ssa.If)
+		if !ok {
+			return false
+		}
+		bo, ok := iff.Cond.(*ssa.BinOp)
+		return ok && (onLimit(bo.X) || onLimit(bo.Y))
+	}
+	// the slice parameter a value is (a re-slice / phi of)
+	var rootParam func(v ssa.Value, d int) *ssa.Parameter
+	rootParam = func(v ssa.Value, d int) *ssa.Parameter {
+		if d > 8 {
+			return nil
+		}
+		switch x := v.(type) {
+		case *ssa.Parameter:
+			return x
+		case *ssa.Slice:
+			return rootParam(x.X, d+1)
+		case *ssa.Phi:
+			for _, e := range x.Edges {
+				if q := rootParam(e, d+1); q != nil {
+					return q
 				}
-				return false
 			}
-			hit, path := reachableFrom(p, loop, after(in), func(x ssa.Instruction) bool { return staticCallTo(x, callee) }, isGuard, nil)
-			if hit == nil {
-				r.OK(rule, key2, p.IPos(in), fmt.Sprintf("every path from one call of %s to the next passes a test of %s", c.loopCallee, c.loopBudget))
-			} else {
-				r.Bad(rule, key2, p.IPos(hit), fmt.Sprintf("%s can be called again at %s without %s having been tested since the previous call: the growth of the buffer is bounded only once per outer iteration, k applications in one stage multiply the length by 2^k", c.loopCallee, p.IPos(hit), c.loopBudget), path...)
+		}
+		return nil
+	}
+	n := 0
+	for _, f := range p.ModFns() {
+		if fnPkg(f) == nil || fnPkg(f).Path() != p.pkgPath(pkg) || f == out || f == repl {
+			continue
+		}
+		loops := naturalLoops(f)
+		for _, b := range f.Blocks {
+			for _, in := range b.Instrs {
+				switch x := in.(type) {
+				case *ssa.Call:
+					sc := x.Common().StaticCallee()
+					if sc != nil && sc == out && out != nil {
+						// (a) inside a loop over a slice parameter
+						var par *ssa.Parameter
+						for _, l := range loops {
+							if !l.blocks[b] {
+								continue
+							}
+							for _, hin := range l.header.Instrs {
+								// `for _, g := range seq`: the header compares the index with len(seq)
+								if c, ok := hin.(*ssa.Call); ok {
+									if bi, ok := c.Common().Value.(*ssa.Builtin); ok && bi.Name() == "len" {
+										if q := rootParam(c.Common().Args[0], 0); q != nil {
+											par = q
+										}
+									}
+								}
+							}
+							for _, pre := range l.header.Preds {
+								for _, hin := range pre.Instrs {
+									if c, ok := hin.(*ssa.Call); ok {
+										if bi, ok := c.Common().Value.(*ssa.Builtin); ok && bi.Name() == "len" {
+											if q := rootParam(c.Common().Args[0], 0); q != nil {
+												par = q
+											}
+										}
+									}
+								}
+							}
+						}
+						if par == nil {
+							continue
+						}
+						n++
+						key := p.FnName(f) + "/loop over " + par.Name()
+						r.Instance(rule, key)
+						ok := false
+						for _, gb := range f.Blocks {
+							iff := ifOf(gb)
+							if iff == nil || !isLimitIf(iff) {
+								continue
+							}
+							bo := iff.Cond.(*ssa.BinOp)
+							onLen := func(v ssa.Value) bool {
+								return derivesFrom(v, func(y ssa.Value) bool {
+									c, ok := y.(*ssa.Call)
+									if !ok {
+										return false
+									}
+									bi, ok := c.Common().Value.(*ssa.Builtin)
+									return ok && bi.Name() == "len" && rootParam(c.Common().Args[0], 0) == par
+								}, 0)
+							}
+							if onLen(bo.X) || onLen(bo.Y) {
+								ok = true
+							}
+						}
+						r.Check(ok, rule, key, p.IPos(in), fmt.Sprintf("one glyph is emitted per element of %s: the function compares len(%s) with %s.%s (a lookup cannot multiply the glyphs beyond the limit)", par.Name(), par.Name(), typ, limit))
+					}
+					if sc != nil && sc == repl && repl != nil {
+						// (b) the glyph list (last argument) is not a literal of constant length
+						args := x.Common().Args
+						last := args[len(args)-1]
+						lit := false
+						// a slice of a local array has at most the (constant) length of the array
+						ofLocalArray := func(v ssa.Value) bool {
+							sl, ok := v.(*ssa.Slice)
+							if !ok {
+								return false
+							}
+							_, isAlloc := sl.X.(*ssa.Alloc)
+							return isAlloc
+						}
+						if ofLocalArray(last) {
+							lit = true
+						}
+						if c, ok := last.(*ssa.Const); ok && c.IsNil() {
+							// the rune list is then the data
+							lit = len(args) >= 2 && ofLocalArray(args[len(args)-2])
+						}
+						if lit {
+							continue
+						}
+						n++
+						key := p.FnName(f) + "/" + replaceFn
+						r.Instance(rule, key)
+						ok, path := mustPrecede(p, f, in, isLimitIf, nil)
+						r.Check(ok, rule, key, p.IPos(in), fmt.Sprintf("the glyphs inserted come from the font: a comparison with %s.%s precedes the insertion on every path", typ, limit), path...)
+					}
+				case *ssa.Store:
+					// (c) Info = append(Info, make(T, n)...)
+					if fieldOf(x.Addr) != fInfo {
+						continue
+					}
+					c, ok := x.Val.(*ssa.Call)
+					if !ok {
+						continue
+					}
+					bi, ok := c.Common().Value.(*ssa.Builtin)
+					if !ok || bi.Name() != "append" || len(c.Common().Args) != 2 {
+						continue
+					}
+					mk, ok := c.Common().Args[1].(*ssa.MakeSlice)
+					if !ok {
+						continue
+					}
+					if _, isC := mk.Len.(*ssa.Const); isC {
+						continue
+					}
+					if why, ok := growExempt[p.FnName(f)]; ok {
+						r.Instance(rule+"(not an instance)", p.FnName(f)+": "+why)
+						continue
+					}
+					n++
+					key := p.FnName(f) + "/append(make)"
+					r.Instance(rule, key)
+					ok2, path := mustPrecede(p, f, in, isLimitIf, nil)
+					r.Check(ok2, rule, key, p.IPos(in), fmt.Sprintf("%s is enlarged by a computed number of glyphs: a comparison with %s.%s precedes it on every path", info, typ, limit), path...)
+				}
 			}
 		}
 	}
-	r.Floor(rule+"(loop)", n, 1)
+	r.Floor(rule, n, floor)
+}
+
+// growExempt: enlargements of the glyph array that do not add glyphs, confirmed by reading.
+var growExempt = map[string]string{
+	"(*harfbuzz.Buffer).shiftForward": "makes room in Info for glyphs that moveTo takes back from the output buffer: the total number of glyphs does not change",
 }
 
 func recExtra(p *Prog) map[string]recJust { return map[string]recJust{} }
@@ -410,10 +558,11 @@ func controlsC01(cp *Prog, r *Report) {
 	}, "pair/(*syncbuf.Buf).swapBad", "pair/(*syncbuf.Buf).deleteBad", "pair/(*syncbuf.Buf).shiftBad", "resync/(*syncbuf.Buf).resyncBad", "bracket/syncbuf.applyBad")
 	expectControl(r, "R-BUDGET", func(cr *Report) {
 		ruleBudget(cp, cr, budgetCfg{pkg: "syncbuf", typ: "Buf", info: "Info", budgets: []string{"maxOps", "maxLen"},
-			entryPkg: "syncbuf", entryRecv: "shaper", entry: "shapeGood",
-			loopRecv: "mapT", loopFn: "applyGood", loopCallee: "applyString", loopCalleeRecv: "Buf", loopBudget: "maxLen"})
+			entryPkg: "syncbuf", entryRecv: "shaper", entry: "shapeGood"})
 		ruleBudget(cp, cr, budgetCfg{pkg: "syncbuf", typ: "Buf", info: "Info", budgets: []string{"maxOps", "maxLen"},
-			entryPkg: "syncbuf", entryRecv: "shaper", entry: "shapeBad",
-			loopRecv: "mapT", loopFn: "applyBad", loopCallee: "applyString", loopCalleeRecv: "Buf", loopBudget: "maxLen"})
-	}, "Buf.maxOps/init-before/(*syncbuf.Buf).work", "Buf.maxLen/init-before/(*syncbuf.Buf).work", "(syncbuf.mapT).applyBad/maxLen-guards-applyString")
+			entryPkg: "syncbuf", entryRecv: "shaper", entry: "shapeBad"})
+	}, "Buf.maxOps/init-before/(*syncbuf.Buf).work", "Buf.maxLen/init-before/(*syncbuf.Buf).work")
+	expectControl(r, "R-BUDGET/grow", func(cr *Report) {
+		ruleBudgetGrow(cp, cr, "grow", "Buf", "Info", "maxLen", "outputGlyphIndex", "replaceGlyphs", 6)
+	}, "(*grow.Buf).multiplyBad/loop over seq", "(*grow.Buf).insertBad/replaceGlyphs", "(*grow.Buf).enlargeBad/append(make)")
 }
